@@ -38,6 +38,11 @@ def _growth_factor(f, rhs, cntname, depth=0):
         for x, y in ((r["ch"][0], r["ch"][1]), (r["ch"][1], r["ch"][0])):
             if glob_ref(x, cntname) is not None and X.const_val(y) is not None:
                 return ("mul" if r["op"] == "*" else "add", X.const_val(y), None)
+        if r["op"] == "+" and glob_ref(r["ch"][0], cntname) is not None and glob_ref(r["ch"][1], cntname) is not None:
+            return ("mul", 2, None)           # CNT + CNT
+    if r.get("k") == "bin" and r.get("op") == "<<" and glob_ref(r["ch"][0], cntname) is not None and \
+            X.const_val(r["ch"][1]) is not None and 0 <= X.const_val(r["ch"][1]) < 16:
+        return ("mul", 1 << X.const_val(r["ch"][1]), None)      # CNT << k
     if r.get("k") == "ref" and r.get("rk") == "local":
         for dfn in _local_defs(f, r["d"]):
             g = _growth_factor(f, dfn, cntname, depth + 1)
@@ -70,6 +75,12 @@ def growth_sites(unit):
             idx = cnt = None
             for x, y in ((a, b), (b, a)):
                 xi = x
+                if xi.get("k") == "ref" and xi.get("rk") == "local":
+                    # a local copy of the (just incremented) index: new_idx = ++IDX; if (new_idx == CNT)
+                    dfs = _local_defs(f, xi["d"])
+                    if len(dfs) == 1 and not any(
+                            m_.get("k") == "assign" and m_.get("op") != "=" and X.strip(m_["ch"][0]).get("d") == xi["d"] for m_ in walk(f.body)):
+                        xi = X.strip(dfs[0])
                 if xi.get("k") == "un" and xi.get("op") == "++":
                     xi = X.strip(xi["ch"][0])
                 if xi.get("k") == "bin" and xi.get("op") == "+" and X.const_val(xi["ch"][1]) == 1:
@@ -86,6 +97,10 @@ def growth_sites(unit):
                         factor = ("mul", X.const_val(m["ch"][1]), None)
                     elif m.get("op") == "+=" and X.const_val(m["ch"][1]) is not None:
                         factor = ("add", X.const_val(m["ch"][1]), None)
+                    elif m.get("op") == "+=" and glob_ref(m["ch"][1], cnt["n"]) is not None:
+                        factor = ("mul", 2, None)         # CNT += CNT
+                    elif m.get("op") == "<<=" and X.const_val(m["ch"][1]) is not None and 0 <= X.const_val(m["ch"][1]) < 16:
+                        factor = ("mul", 1 << X.const_val(m["ch"][1]), None)
                     elif m.get("op") == "=":
                         factor = _growth_factor(f, m["ch"][1], cnt["n"]) or factor
             if factor is None:
@@ -336,6 +351,37 @@ def _handler_protocol_in(chk, unit, f):
         elif lit is not None and lit[:1] == "\x02":
             kind = "end"
         slot = state_slot(a1)
+        s1 = X.strip(a1)
+        if slot is None and s1 is not None and s1.get("k") == "ref" and s1.get("rk") == "local":
+            # the state was first read into a local (a value, not a pointer into the stack): the slot it was read from, moved
+            # down by the pushes between that read and the call; nothing may pop or overwrite a state in between
+            defs = []
+            for x in walk(f.body):
+                if x.get("k") == "assign" and X.strip(x["ch"][0]).get("d") == s1["d"]:
+                    defs.append((x, x["ch"][1] if x.get("op") == "=" else None))
+                if x.get("k") == "decl":
+                    for dcl in x.get("decls", ()):
+                        if dcl["d"] == s1["d"] and dcl.get("init") is not None:
+                            defs.append((x, dcl["init"]))
+            if len(defs) == 1 and defs[0][1] is not None and cfg.node_dominates(defs[0][0]["i"], c["i"]):
+                dn, rhs = defs[0]
+                slot = state_slot(rhs)
+
+                def between(m):
+                    return m["i"] != dn["i"] and not any(y is m for y in walk(dn)) and cfg.node_dominates(dn["i"], m["i"]) and cfg.node_dominates(m["i"], c["i"])
+
+                def after_def(m):
+                    return not any(y is m for y in walk(dn)) and cfg.node_dominates(dn["i"], m["i"]) and not cfg.node_dominates(c["i"], m["i"])
+                pushes_ = [p_ for p_ in X.calls_in(f.body) if X.callee_name(p_) == "spifconf_register_context_state" and after_def(p_)]
+                moves = [m for m in walk(f.body) if (is_dec_of(m, "ctx_state_idx") or (m.get("k") == "assign" and state_slot(m["ch"][0]) is not None)
+                                                     or (m.get("k") in ("assign", "un") and m.get("op") in ("=", "+=", "++") and m.get("ch") and
+                                                         glob_ref(m["ch"][0], "ctx_state_idx") is not None)) and after_def(m) and m is not c]
+                if moves:
+                    slot = "other"
+                elif len(pushes_) == 1 and between(pushes_[0]) and slot == "top":
+                    slot = "last"
+                elif pushes_:
+                    slot = "other"
         n += 1
         want = {"begin": "last", "end": "top", "line": "top"}[kind]
         chk.ob("P2", f.name, "%s-handler-state-arg" % kind, slot == want, loc=f.loc(c),
